@@ -12,6 +12,7 @@
 package klock
 
 import (
+	"strings"
 	"fmt"
 	"io"
 	"log/slog"
@@ -437,6 +438,24 @@ func (a supActor) OnPolicyDecision(record *supervision.AccidentRecord) {
 	a.h.apply(a.role.Sup[k], record)
 }
 
+// scriptedPanic is the value the scripted "panic" action panics with: any other panic coming out of an action is the
+// framework failing underneath the script (e.g. a send that crashes the sender) and is reported as an X observation
+const scriptedPanic = "scripted panic"
+
+func (a *scriptActor) performGuarded(ctx vivid.ActorContext, act Action) {
+	defer func() {
+		if r := recover(); r != nil {
+			s, isStr := r.(string)
+			modelled := (isStr && s == scriptedPanic) || (act.K == "spawn" && strings.Contains(fmt.Sprint(r), "exist")) // ActorOf on a taken address panics: modelled
+			if !modelled {
+				a.h.emit(Obs{K: "X", A: a.tok, Note: fmt.Sprintf("action %s of actor %d panicked inside the framework: %v", act.K, a.tok, r)})
+			}
+			panic(r)
+		}
+	}()
+	a.h.perform(ctx, a, act)
+}
+
 func (a *scriptActor) OnReceive(ctx vivid.ActorContext) {
 	h := a.h
 	trig, n, who, serial := "", -1, RefNone, 0
@@ -474,7 +493,7 @@ func (a *scriptActor) OnReceive(ctx vivid.ActorContext) {
 			continue
 		}
 		for _, act := range r.Do {
-			h.perform(ctx, a, act)
+			a.performGuarded(ctx, act)
 		}
 		break
 	}
@@ -491,11 +510,11 @@ func (h *Harness) perform(ctx vivid.ActorContext, a *scriptActor, act Action) {
 		h.emit(Obs{K: "S", A: act.T, N: act.N, Serial: sn, Snd: a.tok})
 		ctx.Ask(h.refFor(act.T), &probe{N: act.N, Serial: sn})
 	case "reply":
-		if ctx.Sender() != nil {
-			sn := h.nextSerial()
-			h.emit(Obs{K: "S", A: h.tokenOf(ctx.Sender()), N: act.N, Serial: sn, Snd: a.tok})
-			ctx.Reply(&probe{N: act.N, Serial: sn})
-		}
+		// without a sender (the message was sent by Tell) the reply goes to a nil receiver: it must become a dead
+		// letter, not crash the replier
+		sn := h.nextSerial()
+		h.emit(Obs{K: "S", A: h.tokenOf(ctx.Sender()), N: act.N, Serial: sn, Snd: a.tok})
+		ctx.Reply(&probe{N: act.N, Serial: sn})
 	case "bcast":
 		sn := h.nextSerial()
 		var ch []int
@@ -524,7 +543,7 @@ func (h *Harness) perform(ctx vivid.ActorContext, a *scriptActor, act Action) {
 		ctx.ReportAbnormal("scripted abnormality")
 	case "panic":
 		h.emit(Obs{K: "F", A: a.tok, Inst: a.inst, Note: "panic"})
-		panic("scripted panic")
+		panic(scriptedPanic)
 	}
 }
 
